@@ -3,7 +3,10 @@
    (Model/{Tx,Ledger,Sfl,DeltaList,App}.v).  Proofs: Proofs/SummaryProps.v. *)
 From Coq Require Import List NArith ZArith QArith Qcanon Bool.
 From ACB Require Import Base.Outcome Base.QcExtra Base.Arith Model.Tx Model.Ledger Model.Sfl
-     Model.DeltaList Model.App Model.Summary Proofs.SummaryProps.
+     Model.DeltaList Model.App Model.Summary Model.SummaryObs Proofs.SummaryProps.
+From Coq Require Import Sorted.
+From ACB Require Import Proofs.C15Full Proofs.SortLayout Proofs.C10Scan Proofs.C10Sim Proofs.C10Roundtrip
+     Proofs.C10Ranges Proofs.C10Cut Proofs.C10Window Proofs.C10Classes.
 Import ListNotations.
 
 (* ------------------------------------------------------------------ the full statement
@@ -246,3 +249,245 @@ Example C10_roundtrip_partial_nonvacuous :
      = (fst (run exact None (map (hold_tx (wrow 0 0 (wbuy 1 1) default_aff)) ex_hs1))
           ++ fst (run_loop exact [] ex_s1 ex_later), None).
 Proof. vm_compute. repeat split. Qed.
+
+(* ==================================================================== extension: kept rows and later sales at a loss
+   (Proofs/C10Scan.v, C10Sim.v, C10Roundtrip.v, C10Ranges.v, C10Cut.v, C10Window.v; design.d/C10-roundtrip.md) *)
+
+(* ------------------------------------------------------------------ C10_outside_known_full is FALSE as worded
+   A fourth class, K_idle_split_expansion: a later split entered for all
+   affiliates is expanded, in the full history, also over an affiliate that
+   sold everything before the date; the re-run has no row of that affiliate
+   and reports one expansion row less (0 shares before and after).  The strict
+   row-by-row comparison of [roundtrip_ok] fails outside the three classes;
+   with those idle rows left out of the comparison ([roundtrip_obs_ok], which
+   is how the check compares) the witness round-trips.  Exact and dec. *)
+Theorem C10_outside_known_full_refuted : ~ C10_outside_known_full.
+Proof.
+  intros H. specialize (H wit4_date false wit4).
+  destruct wit4_fails as (H1 & H2 & _ & H4 & H5 & H6 & _).
+  rewrite (H H1 H4 H5 H6) in H2. discriminate H2.
+Qed.
+Check C10_outside_known_full_refuted : ~ C10_outside_known_full.
+Print Assumptions C10_outside_known_full_refuted.
+
+Theorem C10_K_idle_split_expansion_witness :
+  history_ok exact wit4 = true /\ roundtrip_ok exact wit4_date false wit4 = false
+  /\ roundtrip_ok dec wit4_date false wit4 = false
+  /\ K_summary_buy_in_window exact wit4_date false wit4 = false
+  /\ K_annual_sell_in_window exact wit4_date false wit4 = false
+  /\ K_zero_balance_acb exact wit4_date wit4 = false
+  /\ K_idle_split_expansion exact wit4_date wit4 = true
+  /\ roundtrip_obs_ok exact wit4_date false wit4 = true
+  /\ roundtrip_obs_ok dec wit4_date false wit4 = true.
+Proof. exact wit4_fails. Qed.
+Check C10_K_idle_split_expansion_witness :
+  history_ok exact wit4 = true /\ roundtrip_ok exact wit4_date false wit4 = false
+  /\ roundtrip_ok dec wit4_date false wit4 = false
+  /\ K_summary_buy_in_window exact wit4_date false wit4 = false
+  /\ K_annual_sell_in_window exact wit4_date false wit4 = false
+  /\ K_zero_balance_acb exact wit4_date wit4 = false
+  /\ K_idle_split_expansion exact wit4_date wit4 = true
+  /\ roundtrip_obs_ok exact wit4_date false wit4 = true
+  /\ roundtrip_obs_ok dec wit4_date false wit4 = true.
+Print Assumptions C10_K_idle_split_expansion_witness.
+
+(* the positive statement, outside the four classes (idle expansion rows not
+   compared): still a Definition; what is proved of it is below *)
+Definition C10_outside_known2_full : Prop := forall latest annual rows,
+  history_ok exact rows = true ->
+  K_summary_buy_in_window exact latest annual rows = false ->
+  K_annual_sell_in_window exact latest annual rows = false ->
+  K_zero_balance_acb exact latest rows = false ->
+  roundtrip_obs_ok exact latest annual rows = true.
+
+(* ------------------------------------------------------------------ (5) what summary_ranges computes
+   On a delta list sorted by settlement date the three index ranges cut the
+   list in summarised / re-emitted / later rows; there is a date c1 between
+   the summarised and the other rows such that EVERY superficial loss among
+   the re-emitted and later rows (not only the first one, which is all the
+   code looks at after the date) has c1 before its 30-day window. *)
+Theorem C10_summary_ranges_cut : forall latest ds rg,
+  d_sorted ds -> summary_ranges latest ds = Some rg ->
+  exists dsP dsK dsT c1,
+    ds = dsP ++ dsK ++ dsT /\ length dsP = first_unsum rg /\ length (dsP ++ dsK) = S (rg_latest rg)
+    /\ dsP ++ dsK <> [] /\ (c1 <= latest)%Z
+    /\ Forall (fun d => (d_sd d <= c1)%Z) dsP
+    /\ Forall (fun d => (c1 < d_sd d)%Z /\ (d_sd d <= latest)%Z) dsK
+    /\ Forall (fun d => (latest < d_sd d)%Z) dsT
+    /\ (forall s, In s (dsK ++ dsT) -> is_sfl_delta s = true -> (c1 < d_sd s - window_days)%Z).
+Proof. exact summary_ranges_cut. Qed.
+Check C10_summary_ranges_cut : forall latest ds rg,
+  d_sorted ds -> summary_ranges latest ds = Some rg ->
+  exists dsP dsK dsT c1,
+    ds = dsP ++ dsK ++ dsT /\ length dsP = first_unsum rg /\ length (dsP ++ dsK) = S (rg_latest rg)
+    /\ dsP ++ dsK <> [] /\ (c1 <= latest)%Z
+    /\ Forall (fun d => (d_sd d <= c1)%Z) dsP
+    /\ Forall (fun d => (c1 < d_sd d)%Z /\ (d_sd d <= latest)%Z) dsK
+    /\ Forall (fun d => (latest < d_sd d)%Z) dsT
+    /\ (forall s, In s (dsK ++ dsT) -> is_sfl_delta s = true -> (c1 < d_sd s - window_days)%Z).
+Print Assumptions C10_summary_ranges_cut.
+
+(* ------------------------------------------------------------------ (6) later rows INCLUDING sales at a loss
+   Generalises C10_later_rows_reproduced.  Two runs of the same rows T from
+   states that agree on every holding and on the totals ([srel]); behind T
+   stand D1 ++ B1 in the full history and D2 ++ B2 in the re-run, D2 being D1
+   with sales re-specified.  If every reported row with a superficial loss has
+   B1 and B2 before its window, every other sale at a loss has B2 before its
+   window ([wcond]), and no row carries a zero superficial-loss cell, the
+   re-run reports EXACTLY the same rows - generated adjustments included. *)
+Theorem C10_later_loss_rows_reproduced : forall B1 B2 T D1 D2 st1 st2 dsT,
+  Forall2 row_sim D2 D1 -> srel st1 st2 -> Forall spec_nz T ->
+  run_loop exact (D1 ++ B1) st1 T = (dsT, None) -> Forall (wcond B1 B2) dsT ->
+  run_loop exact (D2 ++ B2) st2 T = (dsT, None).
+Proof. exact later_sim. Qed.
+Check C10_later_loss_rows_reproduced : forall B1 B2 T D1 D2 st1 st2 dsT,
+  Forall2 row_sim D2 D1 -> srel st1 st2 -> Forall spec_nz T ->
+  run_loop exact (D1 ++ B1) st1 T = (dsT, None) -> Forall (wcond B1 B2) dsT ->
+  run_loop exact (D2 ++ B2) st2 T = (dsT, None).
+Print Assumptions C10_later_loss_rows_reproduced.
+
+(* ------------------------------------------------------------------ (7) a re-emitted sale
+   The sale is written back with the superficial loss the full history
+   computed (or was given; a forced value stays forced).  In the re-run, when
+   the scans see the same rows, the supplied value IS the computed one: the
+   0.001 check passes, the same amount is denied, the same balances, cost base
+   and capital gain are reported, and no adjustment rows are generated. *)
+Theorem C10_kept_sale_reproduced :
+  forall bef2 bef1 t1 aft2 aft1 st2 st1 d inj info sh aps com rate crate spec1,
+  srel st1 st2 ->
+  t_act t1 = Sell sh aps com rate crate spec1 -> (0 < sh)%Qc ->
+  delta_for_tx exact bef1 t1 aft1 st1 = Ok (d, inj) -> d_sfl d = Some info ->
+  FwdEq (t_sd t1) aft2 aft1 -> BwdEq (t_sd t1) bef2 bef1 ->
+  exists info',
+    delta_for_tx exact bef2 (respec t1 (Some (sf_amount info, force_of spec1))) aft2 st2
+    = Ok ({| d_tx := respec t1 (Some (sf_amount info, force_of spec1)); d_pre := d_pre d; d_post := d_post d;
+             d_gain := d_gain d; d_sfl := Some info' |}, [])
+    /\ sf_amount info' = sf_amount info.
+Proof. exact delta_for_tx_kept. Qed.
+Check C10_kept_sale_reproduced :
+  forall bef2 bef1 t1 aft2 aft1 st2 st1 d inj info sh aps com rate crate spec1,
+  srel st1 st2 ->
+  t_act t1 = Sell sh aps com rate crate spec1 -> (0 < sh)%Qc ->
+  delta_for_tx exact bef1 t1 aft1 st1 = Ok (d, inj) -> d_sfl d = Some info ->
+  FwdEq (t_sd t1) aft2 aft1 -> BwdEq (t_sd t1) bef2 bef1 ->
+  exists info',
+    delta_for_tx exact bef2 (respec t1 (Some (sf_amount info, force_of spec1))) aft2 st2
+    = Ok ({| d_tx := respec t1 (Some (sf_amount info, force_of spec1)); d_pre := d_pre d; d_post := d_post d;
+             d_gain := d_gain d; d_sfl := Some info' |}, [])
+    /\ sf_amount info' = sf_amount info.
+Print Assumptions C10_kept_sale_reproduced.
+
+(* ------------------------------------------------------------------ (8) the round trip of the ledger loop
+   simple mode; ANY cut (rows re-emitted or not); later sales at a loss.
+   The full history, rows sorted by date, is run in three parts P, K, T whose
+   deltas are the three parts that summary_ranges computes for the date; [hs]:
+   the holdings at the end of P (an entry per affiliate holding shares; all
+   others hold nothing and have no cost base - the complement of
+   K_zero_balance_acb), each dated at a row of P, as make_simple_summary_txs
+   dates them.  Outside K_summary_buy_in_window (its condition, spelled out),
+   when every supplied superficial-loss cell is non-zero and sales sell a
+   positive number of shares:
+   (generated purchases ++ re-emitted rows ++ later rows) is ACCEPTED, the
+   re-emitted rows report the same balances, cost bases and gains, and the
+   later rows are reported EXACTLY as the full history reports them. *)
+Theorem C10_roundtrip_simple_partial :
+  forall like (hs : list hold_row) latest rg P K T dsP B1 st1 dsK bK stK dsT K',
+  sd_sorted (P ++ K ++ T) ->
+  run_part exact [] st0 P (K ++ T) = (dsP, B1, st1, None) ->
+  run_part exact B1 st1 K T = (dsK, bK, stK, None) ->
+  run_loop exact bK stK T = (dsT, None) ->
+  summary_ranges latest (dsP ++ dsK ++ dsT) = Some rg ->
+  length dsP = first_unsum rg -> length (dsP ++ dsK) = S (rg_latest rg) ->
+  NoDup (map (fun h : hold_row => af_id (fst (fst h))) hs) ->
+  Forall (fun h : hold_row => holding_ok (fst (fst h)) (snd (fst h))) hs ->
+  ps_all st1 = total_held hs ->
+  (forall af, obs st1 af = held_obs hs af (0%Qc, if af_reg af then None else Some 0%Qc)) ->
+  Forall (fun h : hold_row => exists d, In d dsP /\ snd h = d_sd d) hs ->
+  (forall h d, In h hs -> In d (dsK ++ dsT) -> plain_loss_sell d = true -> within_after (snd h) (d_sd d) = false) ->
+  keep_all dsK = Ok K' ->
+  Forall spec_nz (K ++ T) -> Forall sell_pos K ->
+  exists dsG dsK',
+    run exact None (map (hold_tx like) hs ++ K' ++ T) = (dsG ++ dsK' ++ dsT, None)
+    /\ map (fun d => (s_sh (d_post d), s_acb (d_post d))) dsG
+       = map (fun h : hold_row => (s_sh (snd (fst h)), s_acb (snd (fst h)))) hs
+    /\ map d_post dsK' = map d_post dsK /\ map d_gain dsK' = map d_gain dsK.
+Proof. exact roundtrip_ranges. Qed.
+Check C10_roundtrip_simple_partial :
+  forall like (hs : list hold_row) latest rg P K T dsP B1 st1 dsK bK stK dsT K',
+  sd_sorted (P ++ K ++ T) ->
+  run_part exact [] st0 P (K ++ T) = (dsP, B1, st1, None) ->
+  run_part exact B1 st1 K T = (dsK, bK, stK, None) ->
+  run_loop exact bK stK T = (dsT, None) ->
+  summary_ranges latest (dsP ++ dsK ++ dsT) = Some rg ->
+  length dsP = first_unsum rg -> length (dsP ++ dsK) = S (rg_latest rg) ->
+  NoDup (map (fun h : hold_row => af_id (fst (fst h))) hs) ->
+  Forall (fun h : hold_row => holding_ok (fst (fst h)) (snd (fst h))) hs ->
+  ps_all st1 = total_held hs ->
+  (forall af, obs st1 af = held_obs hs af (0%Qc, if af_reg af then None else Some 0%Qc)) ->
+  Forall (fun h : hold_row => exists d, In d dsP /\ snd h = d_sd d) hs ->
+  (forall h d, In h hs -> In d (dsK ++ dsT) -> plain_loss_sell d = true -> within_after (snd h) (d_sd d) = false) ->
+  keep_all dsK = Ok K' ->
+  Forall spec_nz (K ++ T) -> Forall sell_pos K ->
+  exists dsG dsK',
+    run exact None (map (hold_tx like) hs ++ K' ++ T) = (dsG ++ dsK' ++ dsT, None)
+    /\ map (fun d => (s_sh (d_post d), s_acb (d_post d))) dsG
+       = map (fun h : hold_row => (s_sh (snd (fst h)), s_acb (snd (fst h)))) hs
+    /\ map d_post dsK' = map d_post dsK /\ map d_gain dsK' = map d_gain dsK.
+Print Assumptions C10_roundtrip_simple_partial.
+
+(* the full statement of the simple mode at the level of the model's entry
+   points (rows numbered in input order, one security): NOT proved; see
+   design.d/C10-roundtrip.md for exactly what separates it from
+   C10_roundtrip_simple_partial *)
+Definition C10_roundtrip_simple_full : Prop := forall latest rows0,
+  let rows := number_from 0 rows0 in
+  history_ok exact rows = true ->
+  forallb valid_tx rows = true ->
+  K_summary_buy_in_window exact latest false rows = false ->
+  K_zero_balance_acb exact latest rows = false ->
+  roundtrip_obs_ok exact latest false rows = true.
+
+(* ------------------------------------------------------------------ non-vacuity
+   a history with a re-emitted superficial sale (and its adjustment row), a
+   later superficial sale whose window reaches back over the re-emitted rows,
+   and a later plain loss satisfies every hypothesis of
+   C10_roundtrip_simple_partial; the model's own [roundtrip_ok] holds on it *)
+Example C10_roundtrip_simple_partial_nonvacuous :
+  sd_sorted (rt_P ++ rt_K ++ rt_T)
+  /\ run_part exact [] st0 rt_P (rt_K ++ rt_T) = (rt_dsP, rt_B1, rt_st1, None)
+  /\ run_part exact rt_B1 rt_st1 rt_K rt_T = (rt_dsK, rt_bK, rt_stK, None)
+  /\ run_loop exact rt_bK rt_stK rt_T = (rt_dsT, None)
+  /\ summary_ranges rt_date (rt_dsP ++ rt_dsK ++ rt_dsT) = Some rt_rg
+  /\ length rt_dsP = first_unsum rt_rg /\ length (rt_dsP ++ rt_dsK) = S (rg_latest rt_rg)
+  /\ NoDup (map (fun h : hold_row => af_id (fst (fst h))) rt_hs)
+  /\ Forall (fun h : hold_row => holding_ok (fst (fst h)) (snd (fst h))) rt_hs
+  /\ ps_all rt_st1 = total_held rt_hs
+  /\ (forall af, obs rt_st1 af = held_obs rt_hs af (Q2Qc 0, if af_reg af then None else Some (Q2Qc 0)))
+  /\ Forall (fun h : hold_row => exists d, In d rt_dsP /\ snd h = d_sd d) rt_hs
+  /\ (forall h d, In h rt_hs -> In d (rt_dsK ++ rt_dsT) -> plain_loss_sell d = true -> within_after (snd h) (d_sd d) = false)
+  /\ keep_all rt_dsK = Ok rt_K'
+  /\ Forall spec_nz (rt_K ++ rt_T) /\ Forall sell_pos rt_K
+  /\ map (fun d => (d_sd d, is_sfl_delta d, plain_loss_sell d)) (rt_dsK ++ rt_dsT)
+     = [(737100, false, false); (737110, true, false); (737110, false, false);
+        (737125, true, false); (737125, false, false); (737135, false, false); (737300, false, true)]%Z
+  /\ map (fun t => act_tag (t_act t)) rt_K' = [0; 1; 3]%N
+  /\ roundtrip_ok exact rt_date false (rt_P ++ rt_K ++ rt_T) = true
+  /\ K_summary_buy_in_window exact rt_date false (rt_P ++ rt_K ++ rt_T) = false.
+Proof. exact rt_hypotheses. Qed.
+
+(* the hypotheses of C10_later_loss_rows_reproduced and C10_kept_sale_reproduced
+   are those of the rows of this history (instances used inside the proof of
+   C10_roundtrip_simple_partial); a direct instance: the later rows of the
+   history from the state of the full history and from the state after the
+   summary report the same rows, a superficial loss and a plain loss included *)
+Example C10_later_loss_rows_nonvacuous :
+  exists dsG dsK',
+    run exact None (map (hold_tx rt_like) rt_hs ++ rt_K' ++ rt_T) = (dsG ++ dsK' ++ rt_dsT, None)
+    /\ existsb is_sfl_delta rt_dsT = true /\ existsb plain_loss_sell rt_dsT = true
+    /\ existsb is_sfl_delta rt_dsK = true.
+Proof.
+  destruct rt_hypotheses as (H1 & H2 & H3 & H4 & H5 & H6 & H7 & H8 & H9 & H10 & H11 & H12 & H13 & H14 & H15 & H16 & _).
+  destruct (C10_roundtrip_simple_partial rt_like rt_hs rt_date rt_rg rt_P rt_K rt_T rt_dsP rt_B1 rt_st1 rt_dsK rt_bK rt_stK
+              rt_dsT rt_K' H1 H2 H3 H4 H5 H6 H7 H8 H9 H10 H11 H12 H13 H14 H15 H16) as (dsG & dsK' & E & _).
+  exists dsG, dsK'. split; [exact E|]. vm_compute. repeat split.
+Qed.
